@@ -2,6 +2,7 @@
 import random
 
 from ..harness import Scenario, gen_cfg, ref_alpha
+from ..riverlike import RealScenario, gen_real_cfg
 from ..probes import InjectedFault
 from ..explref import SageRef, Mismatch, compare
 
@@ -10,17 +11,22 @@ N_CFG = {"quick": 700, "thorough": 4000}
 
 
 def pred_scale(sc):
+    if getattr(sc, "pred_scale", None):
+        return sc.pred_scale
     return 1000.0 if sc.cfg["model"] != "linear" else 1e6
 
 
 def run_config(run, cfg, seed, tag):
     try:
-        sc = Scenario(cfg, seed)
+        sc = (RealScenario if cfg.get("real") else Scenario)(cfg, seed)
     except Exception as ex:
         run.other_error(f"C15:construct:{type(ex).__name__}")
         return
     run.count("configs")
     ref = SageRef(sc.names, cfg["dyn"], ref_alpha(cfg), cfg["lbib"], sc.model, sc.loss)
+    if cfg.get("real"):
+        run.count("real-model-configs")
+        ref.unique = False
     for t in range(cfg["steps"]):
         kw = sc.call_kwargs()
         if seed % 6 == 0 and t >= 1 and sc.rnd.random() < 0.3:       # a callback fails somewhere in this call; the caller carries on
@@ -51,7 +57,7 @@ def run_config(run, cfg, seed, tag):
         obs = sc.snapshot()
         scale = max(1.0, sc.loss.max_abs)
         bad = list(compare(obs, exp, cfg["exact"], scale, pred_scale(sc)))
-        run.ok(len(exp), kind="exact" if cfg["exact"] else "float")
+        run.ok(len(exp), kind="real-model" if cfg.get("real") else "exact" if cfg["exact"] else "float")
         for key, o, e in bad:
             run.violation("observable:" + key, f"{tag} step {t}: {key} observed {o!r} expected {e!r} "
                                                f"(order drawn {ref.last_order})", replay)
@@ -134,10 +140,14 @@ def main(run):
     run.require("ixai/explainer/sage/incremental.py:IncrementalSage.explain_one",
                 "ixai/explainer/base.py:_get_mean_model_output",
                 "ixai/utils/tracker/multi_value.py:MultiValueTracker.get_normalized")
+    run.require_count("real-model-configs")
     rnd = random.Random(run.shard_seed)
     for i in range(N_CFG[run.tier]):
         cfg = gen_cfg(rnd, "sage", exact=(i % 3 != 2))
         run_config(run, cfg, rnd.randrange(2 ** 31), f"s{run.shard[0]}c{i}")
+        if i % 12 == 11:       # a real river model that keeps learning, river streams, river metrics, the library's wrappers
+            rcfg = gen_real_cfg(rnd, "sage", need_decode=True)
+            run_config(run, rcfg, rnd.randrange(2 ** 31), f"s{run.shard[0]}c{i}real")
         if i % 6 == 5 and cfg["imputer"] != "library-default" and cfg["storage"][0] != "library-default":
             cfg2 = dict(cfg, vary_calls=False, warm_start=0, out_type=("plain" if cfg.get("out_type") == "u8-loss" else cfg.get("out_type", "plain")))
             run_shared(run, cfg2, rnd.randrange(2 ** 31), f"s{run.shard[0]}c{i}shared")
